@@ -42,7 +42,11 @@ impl<T: Copy> GuardBuf<T> {
     pub fn new(len: usize, place: Place, fill: T) -> Self {
         use sys::*;
         let bytes = len * std::mem::size_of::<T>();
-        let data_pages_len = ((bytes + PAGE - 1) / PAGE).max(1) * PAGE;
+        // Head placement starts the data `align_of::<T>()` bytes after the leading guard page: the pointer then has the
+        // *minimal* alignment the element type allows (an aligned 16-byte SSE access to a Complex<f64> slice at 8 mod 16
+        // traps), and an under-run of one whole element still reaches the guard page (elements are >= 2*align bytes)
+        let head_shift = std::mem::align_of::<T>();
+        let data_pages_len = ((bytes + head_shift + PAGE - 1) / PAGE).max(1) * PAGE;
         let total = data_pages_len + 2 * PAGE;
         unsafe {
             // reuse a mapping of the same size if this thread has one (mmap/munmap per call is slow)
@@ -66,7 +70,7 @@ impl<T: Copy> GuardBuf<T> {
             };
             let data_pages_start = base.add(PAGE);
             let data = match place {
-                Place::Head => data_pages_start,
+                Place::Head => data_pages_start.add(head_shift),
                 Place::Tail => data_pages_start.add(data_pages_len - bytes),
             } as *mut T;
             assert_eq!(data as usize % std::mem::align_of::<T>(), 0);
@@ -301,22 +305,23 @@ pub use crash::{install as install_crash_handler, set_case};
 /// and when writing to a read-only buffer. Invoked as `fftmon guard-fault <which>`; must die in the handler.
 #[cfg(not(miri))]
 pub fn fault_probe(which: &str) {
-    let mut g = GuardBuf::<u64>::new(100, if which == "head" { Place::Head } else { Place::Tail }, 7);
+    // element type of 16 bytes with 8-byte alignment, like Complex<f64>
+    let mut g = GuardBuf::<[u64; 2]>::new(100, if which == "head" { Place::Head } else { Place::Tail }, [7, 7]);
     set_case(&format!("guard-probe-{}", which));
     unsafe {
         let p = g.as_mut_slice().as_mut_ptr();
         match which {
             "tail" => {
                 let v = std::ptr::read_volatile(p.add(100));
-                println!("read past the end succeeded: {}", v);
+                println!("read past the end succeeded: {:?}", v);
             }
             "head" => {
                 let v = std::ptr::read_volatile(p.sub(1));
-                println!("read before the start succeeded: {}", v);
+                println!("read before the start succeeded: {:?}", v);
             }
             "ro" => {
                 g.protect_readonly();
-                std::ptr::write_volatile(p.add(5), 9);
+                std::ptr::write_volatile(p.add(5), [9, 9]);
                 println!("write to read-only buffer succeeded");
             }
             _ => println!("unknown probe"),
